@@ -23,7 +23,8 @@ theorem load_dir7 (inv : Arr → Arr) (a1 a2 a3 a4 a5 a6 a7 : Arr)
          channelPositions := atleast 2 (squeeze (scrub a7)), channelShanks := none,
          channelProbes := some (atleast 1 (squeeze (scrub a6))), templates := none,
          templateCols := none, wm := none, wmi := none, similar := none },
-       dir7 a1 a2 a3 a4 a5 a6 a7 ++ [("whitening_mat_inv.npy", { shape := [], data := [] })]) := by
+       dir7 a1 a2 a3 a4 a5 a6 a7 ++
+         [("whitening_mat_inv.npy", inv (eye (.num 1) ((atleast 1 (squeeze (scrub a5))).shape.headD 0)))]) := by
   simp +decide [load, dir7, readFile, findPath, List.lookup, hm, bind, Except.bind, pure, Except.pure]
 
 /-! ### `monotone`, `scrub`, `squeeze`, `atleast` on the written arrays -/
